@@ -32,7 +32,7 @@ def reqOf (a : Json) : R Req := do
     hasMethod := ← boolF a "hasMethod", methodText := ← boolF a "methodText", version := version,
     traceparent := ← mdOf (← rawStr (← field a "traceparent")), tracestate := ← mdOf (← rawStr (← field a "tracestate")),
     shmName := ← mdOf (← rawStr (← field a "shmName")), shmSize := size, isPointer := ← boolF a "isPointer",
-    staticShm := ← boolF a "staticShm", shmOpen := ← st "shmOpen", allocInit := ← st "allocInit", resolve := ← st "resolve", release := ← st "release",
+    staticShm := ← boolF a "staticShm", shmOpen := ← st "shmOpen", allocInit := ← st "allocInit", resolve := ← st "resolve", deser := ← st "deser", release := ← st "release",
     ncols := ← natF a "ncols", rows := ← natF a "rows", asPy := ← st "asPy",
     isTransportOptions := ← boolF a "isTransportOptions", methodKnown := ← boolF a "methodKnown",
     versionCheck := ← st "versionCheck", validate := ← st "validate", call := ← st "call" }
@@ -59,7 +59,7 @@ def handle (fn : String) (a : Json) : R Json := do
   | "tables" =>
     pure (obj [("serveLoop", ofList (Gen.C05.serveLoop.map lst)),
                ("readRequestTry", ofList (Gen.C05.readRequestTry.map fun (c, r) => ofList [lst c, ofBool r])),
-               ("attachGuard", lst Gen.C05.attachGuard), ("attachConvert", lst Gen.C05.attachConvert), ("pointerGuard", lst Gen.C05.pointerGuard),
+               ("attachGuard", lst Gen.C05.attachGuard), ("attachConvert", lst Gen.C05.attachConvert), ("resolveConvert", lst Gen.C05.resolveConvert), ("pointerGuard", lst Gen.C05.pointerGuard),
                ("asPyGuard", lst Gen.C05.asPyGuard), ("traceDecode", lst Gen.C05.traceDecode),
                ("firstRead", lst Gen.C05.firstRead), ("drainSkips", lst Gen.C05.drainSkips)])
   | _ => throw s!"unknown function C05.{fn}"
